@@ -25,7 +25,8 @@ class DeflateZipModel(JWEZipModel):
         else:
             decompressor = zlib.decompressobj(-zlib.MAX_WBITS)
         value = decompressor.decompress(s, MAX_SIZE)
-        if decompressor.unconsumed_tail:
+        # all input may be consumed while output is still pending inside zlib
+        if decompressor.unconsumed_tail or decompressor.decompress(b"", 1):
             raise ExceededSizeError(f"Decompressed string exceeds {MAX_SIZE} bytes")
         return value
 
